@@ -303,6 +303,49 @@ theorem checkpoint_corruption_detected {σ : Type} (crc : Bytes → Nat) (de : B
   · exact chk_err_of_footer_crc crc de data h
   · exact chk_err_of_data_crc crc de data h
 
+/-! ## gossip frames -/
+
+/-- a gossip message arrives unchanged — given the round-trip law of the (unmodelled)
+    serde_json codec for that message, which is the obligation the harness checks on every run
+    for every delta, every message variant and binary / non-UTF-8 payloads -/
+theorem gossip_roundtrip {μ : Type} (c : SerDe μ) (m : μ) (hlaw : c.Lawful m) :
+    gossipDeliver c m = some m := hlaw
+
+/-- the law is a real obligation: a codec that carries payloads as lossy text (0xFF → U+FFFD)
+    violates it, and the message that arrives differs -/
+def lossyCodec : SerDe Bytes :=
+  ⟨fun b => b.flatMap (fun x => if x < 128 then [x] else [239, 191, 189]), fun b => some b⟩
+
+theorem gossip_lossy_counterexample :
+    ¬ lossyCodec.Lawful [255] ∧ gossipDeliver lossyCodec [255] = some [239, 191, 189] := by
+  constructor
+  · intro h
+    unfold SerDe.Lawful lossyCodec at h
+    simp at h
+  · rfl
+
+/-! ## length fields are 32-bit values: no bound test wraps -/
+
+/-- `WalEntry::decode`: the size test the current code performs (checked `usize` add of the
+    16-byte overhead and the `u32` length) rejects exactly when `16 + len > remaining` -/
+theorem wal_decode_total_no_wrap (remaining len : Nat) (hl : len < 2 ^ 32) :
+    sizeTest .usizeChecked overhead remaining len
+      = if remaining < overhead + len then .reject else .slice (overhead + len) :=
+  C10.decode_total_no_wrap remaining len hl
+
+/-- `DeltaIterator::next` (`offset + 4`, `offset + len`) and `CheckpointReader::validate`
+    (`data_start + data_len`, `footer_start + 16`): plain `usize` additions of an offset below
+    `2^63` and a 32-bit length never wrap, so the model's unbounded comparison is the code's -/
+theorem record_bounds_no_wrap (offset remaining len : Nat) (ho : offset < 2 ^ 63) (hl : len < 2 ^ 32) :
+    sizeTest .usizeWrapping offset remaining len
+      = if remaining < offset + len then .reject else .slice (offset + len) :=
+  C10.size_test_no_wrap .usizeWrapping (by decide) offset remaining len ho hl
+
+/-- 32-bit wrapping arithmetic accepts an erased-flash length and then slices out of range -/
+theorem wal_size_wrap_counterexample :
+    sizeTest .u32Wrapping overhead 16 0xFFFFFFF0 = .crash ∧
+    sizeTest .usizeChecked overhead 16 0xFFFFFFF0 = .reject := by decide
+
 /-! ## WAL entry -/
 
 /-- `to_delta(decode(encode(from_delta(d, ts)))) = d`, followed by anything (both formats) -/
